@@ -33,6 +33,10 @@ use std::{
 
 mod internal_metrics;
 
+#[cfg(emit_rs_emit_verif)]
+#[allow(missing_docs)]
+pub mod verif;
+
 /**
 A channel between a shared [`Sender`] and exclusive [`Receiver`].
 
@@ -168,6 +172,8 @@ pub struct Sender<T> {
 
 impl<T> Drop for Sender<T> {
     fn drop(&mut self) {
+        #[cfg(emit_rs_emit_verif)]
+        verif::point(verif::Point::SenderDropLock);
         self.shared.state.lock().unwrap().is_open = false;
     }
 }
@@ -179,6 +185,8 @@ impl<T: Channel> Sender<T> {
     The item will be processed at some future point by the [`Receiver`]. If pushing the item would overflow the maximum capacity of the channel it will be cleared first.
     */
     pub fn send<'a>(&self, msg: T::Item) {
+        #[cfg(emit_rs_emit_verif)]
+        verif::point(verif::Point::SendLock);
         let mut state = self.shared.state.lock().unwrap();
 
         // If the channel is full then drop it; this prevents OOMing
@@ -203,6 +211,8 @@ impl<T: Channel> Sender<T> {
     The item will be processed at some future point by the [`Receiver`]. If pushing the item would overflow the maximum capacity of the channel then this method will return `Err`.
     */
     pub fn try_send<'a>(&self, msg: T::Item) -> Result<(), BatchError<T::Item>> {
+        #[cfg(emit_rs_emit_verif)]
+        verif::point(verif::Point::TrySendLock);
         let mut state = self.shared.state.lock().unwrap();
 
         if !state.is_open {
@@ -261,6 +271,8 @@ impl<T: Channel> Sender<T> {
     The watcher is guaranteed to trigger at a point where the current batch is empty.
     */
     pub fn when_empty(&self, f: impl FnOnce() + Send + 'static) {
+        #[cfg(emit_rs_emit_verif)]
+        verif::point(verif::Point::WhenEmptyLock);
         let mut state = self.shared.state.lock().unwrap();
 
         // If:
@@ -282,6 +294,8 @@ impl<T: Channel> Sender<T> {
     The watcher is guaranteed to trigger at a point where the batch that was processing at the time this call was made has completed.
     */
     pub fn when_flushed(&self, f: impl FnOnce() + Send + 'static) {
+        #[cfg(emit_rs_emit_verif)]
+        verif::point(verif::Point::WhenFlushedLock);
         let mut state = self.shared.state.lock().unwrap();
 
         // If:
@@ -314,6 +328,24 @@ impl<T: Channel> Sender<T> {
     }
 }
 
+#[cfg(emit_rs_emit_verif)]
+impl<T: Channel> Sender<T> {
+    /**
+    Read the state of the channel under its lock.
+    */
+    pub fn verif_snapshot(&self) -> verif::Snapshot {
+        let state = self.shared.state.lock().unwrap();
+
+        verif::Snapshot {
+            pending_len: state.next_batch.channel.len(),
+            is_open: state.is_open,
+            is_in_batch: state.is_in_batch,
+            on_take: state.next_batch.watchers.on_take.len(),
+            on_flush: state.next_batch.watchers.on_flush.len(),
+        }
+    }
+}
+
 /**
 The receiving half of a channel.
 
@@ -329,6 +361,8 @@ pub struct Receiver<T> {
 
 impl<T> Drop for Receiver<T> {
     fn drop(&mut self) {
+        #[cfg(emit_rs_emit_verif)]
+        verif::point(verif::Point::ReceiverDropLock);
         self.shared.state.lock().unwrap().is_open = false;
 
         // NOTE: If the sender is waiting for a flush it may time out
@@ -361,6 +395,8 @@ impl<T: Channel> Receiver<T> {
         loop {
             // Run inside the lock
             let (mut current_batch, is_open) = {
+                #[cfg(emit_rs_emit_verif)]
+                verif::point(verif::Point::RecvSwapLock);
                 let mut state = self.shared.state.lock().unwrap();
 
                 // NOTE: We don't check the `is_open` value here because we want a chance to emit
@@ -394,6 +430,8 @@ impl<T: Channel> Receiver<T> {
             };
 
             // Run outside of the lock
+            #[cfg(emit_rs_emit_verif)]
+            verif::point(verif::Point::RecvTaken);
             current_batch.watchers.notify_on_take();
 
             if current_batch.channel.len() > 0 {
@@ -409,6 +447,8 @@ impl<T: Channel> Receiver<T> {
 
                 // Emit the batch, taking care not to panic
                 loop {
+                    #[cfg(emit_rs_emit_verif)]
+                    verif::point(verif::Point::RecvBeforeBatch);
                     match panic::catch_unwind(AssertUnwindSafe(|| on_batch(current_batch.channel)))
                     {
                         Ok(on_batch_future) => {
@@ -422,6 +462,8 @@ impl<T: Channel> Receiver<T> {
 
                                     if let Some(retryable) = retryable {
                                         if retryable.len() > 0 && self.retry.next() {
+                                            #[cfg(emit_rs_emit_verif)]
+                                            verif::point(verif::Point::RecvBeforeRetryWait);
                                             // Delay a bit before trying again; this gives the external service
                                             // a chance to get itself together
                                             wait(self.retry_delay.next()).await;
@@ -452,6 +494,8 @@ impl<T: Channel> Receiver<T> {
                 }
 
                 // After the batch has been emitted, notify any watchers
+                #[cfg(emit_rs_emit_verif)]
+                verif::point(verif::Point::RecvBeforeNotifyFlush);
                 current_batch.watchers.notify_on_flush();
             }
             // If the batch was empty then notify any watchers (there was nothing to flush)
@@ -465,6 +509,8 @@ impl<T: Channel> Receiver<T> {
                     return;
                 }
 
+                #[cfg(emit_rs_emit_verif)]
+                verif::point(verif::Point::RecvBeforeIdleWait);
                 // If we didn't see any events, then sleep for a bit
                 wait(self.idle_delay.next()).await;
             }
@@ -588,6 +634,10 @@ impl Delay {
 
     fn next(&mut self) -> Duration {
         self.current = cmp::min(self.current * 2 + self.step, self.max);
+        #[cfg(emit_rs_emit_verif)]
+        if let Some(scaled) = verif::scaled_delay(self.current) {
+            return scaled;
+        }
         self.current
     }
 }
